@@ -96,6 +96,74 @@ func allSendSites(p *Prog) []sendSite {
 	return out
 }
 
+// handoverAliasObligations: a slice or map handed to another goroutine through a channel belongs to the receiver from
+// then on — the sender does not go on writing into its storage (reusing it as buf[:0], appending to it, storing into
+// its elements): the receiver would read what the sender is overwriting for the next item.
+func handoverAliasObligations(p *Prog) []Ob {
+	var out []Ob
+	for _, s := range allSendSites(p) {
+		v := s.val
+		switch v.Type().Underlying().(type) {
+		case *types.Slice, *types.Map:
+		default:
+			continue
+		}
+		fn := s.fn
+		same := func(x ssa.Value) bool {
+			x = stripConv(x)
+			return x == v || sameVar(x, v)
+		}
+		why := ""
+		allInstrs(fn, func(in ssa.Instruction) {
+			if why != "" || !reachableAfter(s.instr, in) {
+				return
+			}
+			switch x := in.(type) {
+			case *ssa.Slice:
+				if !same(x.X) {
+					return
+				}
+				// v[:0] (or any re-slice) that is then appended to / stored back
+				for _, r := range *x.Referrers() {
+					switch y := r.(type) {
+					case *ssa.Call:
+						if isBuiltinCall(y, "append") && len(y.Common().Args) > 0 && y.Common().Args[0] == ssa.Value(x) {
+							why = "re-sliced at " + p.InstrPos(x) + " and appended to at " + p.InstrPos(y)
+						}
+					case *ssa.Phi, *ssa.Store:
+						why = "re-sliced at " + p.InstrPos(x) + " for reuse"
+					}
+				}
+			case *ssa.Call:
+				if isBuiltinCall(x, "append") && len(x.Common().Args) > 0 && same(x.Common().Args[0]) {
+					why = "appended to at " + p.InstrPos(x)
+				}
+				if isBuiltinCall(x, "clear") && len(x.Common().Args) > 0 && same(x.Common().Args[0]) {
+					why = "cleared at " + p.InstrPos(x)
+				}
+			case *ssa.Store:
+				if ia, ok := x.Addr.(*ssa.IndexAddr); ok && same(ia.X) {
+					why = "written into at " + p.InstrPos(x)
+				}
+			case *ssa.MapUpdate:
+				if same(x.Map) {
+					why = "updated at " + p.InstrPos(x)
+				}
+			}
+		})
+		ob := Ob{Rule: "CONC-2", Cfg: p.Cfg.Name, Func: p.FuncID(fn), Construct: "a " + v.Type().String() + " sent on a channel is not touched by the sender afterwards", Pos: p.InstrPos(s.instr), Nontrivial: true, Role: "handover-alias"}
+		if why != "" {
+			ob.Status = Violation
+			ob.Detail = "after the value was sent it is " + why + " in the sending function: the storage now also belongs to the receiving goroutine, which reads it while the sender writes the next item into it — a data race, and items that show another item's content"
+		} else {
+			ob.Status = OK
+			ob.Detail = "the sender neither re-slices, appends to, clears nor stores into the value after the send"
+		}
+		out = append(out, ob)
+	}
+	return out
+}
+
 func ruleCONC1(w *World) []Ob {
 	p := w.D()
 	l := &obs{rule: "CONC-1", cfg: "D"}
@@ -290,6 +358,7 @@ func isWGMethod(com *ssa.CallCommon, m string) bool {
 }
 
 func ruleCONC2(w *World) []Ob {
+	var aliasObs = handoverAliasObligations(w.D())
 	p := w.D()
 	l := &obs{rule: "CONC-2", cfg: "D"}
 	// all close(ch) sites in the library
@@ -411,6 +480,9 @@ func ruleCONC2(w *World) []Ob {
 		if !matched[c.instr] {
 			l.bad(p.FuncID(c.fn), "close("+describeValue(c.ch)+")", p.InstrPos(c.instr), "close of a channel whose make(chan) is not visible in the enclosing function: ownership cannot be established", "close")
 		}
+	}
+	for _, o := range aliasObs {
+		l.add(o)
 	}
 	return l.list
 }
@@ -608,6 +680,9 @@ func ruleCONC3(w *World) []Ob {
 				ctxParam = prm
 			}
 		}
+		for _, w2 := range escapingCancelledCtx(p, fn) {
+			l.bad(fid, "a context cancelled on return does not leave the function", p.Pos(fn.Pos()), w2, "operation")
+		}
 		if isContextMaker(fn) {
 			continue // judged at its call sites: the operation that receives (ctx, cancel) must defer cancel
 		}
@@ -643,6 +718,65 @@ func ruleCONC3(w *World) []Ob {
 		}
 		if !usesCtx {
 			continue
+		}
+		// every stage's error channel reaches the collector: an error channel (a `<-chan error` result of a stage call)
+		// that exists when the collector is called is one of its arguments
+		{
+			isErrChan := func(t types.Type) bool {
+				ch, ok := t.Underlying().(*types.Chan)
+				return ok && isErrorType(ch.Elem())
+			}
+			var chans []ssa.Value
+			allInstrs(fn, func(in ssa.Instruction) {
+				switch x := in.(type) {
+				case *ssa.Extract:
+					if isErrChan(x.Type()) {
+						if _, fromCall := x.Tuple.(*ssa.Call); fromCall {
+							chans = append(chans, x)
+						}
+					}
+				case *ssa.Call:
+					if isErrChan(x.Type()) {
+						chans = append(chans, x)
+					}
+				}
+			})
+			if len(chans) >= 2 {
+				allInstrs(fn, func(in ssa.Instruction) {
+					c, ok := in.(*ssa.Call)
+					if !ok || len(c.Common().Args) == 0 {
+						return
+					}
+					last := c.Common().Args[len(c.Common().Args)-1]
+					elems, isV := variadicElems(last)
+					if !isV || len(elems) == 0 || !isErrChan(elems[0].Type()) {
+						return
+					}
+					var missing []string
+					for _, ch := range chans {
+						def := ch.(ssa.Instruction)
+						dominates := def.Block() == c.Block() && instrIndex(def) < instrIndex(c) || (def.Block() != c.Block() && def.Block().Dominates(c.Block()))
+						if !dominates {
+							continue
+						}
+						found := false
+						for _, e := range elems {
+							if sameVar(stripConv(e), ch) || stripConv(resolve(e)) == ch {
+								found = true
+							}
+						}
+						if !found {
+							missing = append(missing, describeValue(ch)+" (made at "+p.InstrPos(def)+")")
+						}
+					}
+					construct := "every stage's error channel is collected"
+					if len(missing) > 0 {
+						l.bad(fid, construct, p.InstrPos(c), "the collector is not given "+strings.Join(missing, ", ")+": whatever that stage reports (a malformed line, a failing reader) is lost and the operation returns success with part of its work undone", "collected")
+					} else {
+						l.ok(fid, construct, p.InstrPos(c), fmt.Sprintf("all %d error channels made before this call are among its arguments", len(elems)), true, "collected")
+					}
+				})
+			}
 		}
 		if derive != nil && ctxParam == nil {
 			// a pipeline operation
@@ -788,6 +922,41 @@ func ruleCONC3(w *World) []Ob {
 				l.bad(fid, construct, p.Pos(fn.Pos()), strings.Join(wrong, "; "), "stage")
 			} else {
 				l.ok(fid, construct, p.Pos(fn.Pos()), fmt.Sprintf("%d context use(s), all rooted at the ctx parameter", nUses), true, "stage")
+			}
+			// the function that is handed the stages' error channels waits on all of them at once (one collector each):
+			// read one after the other, the error of a later stage is not seen while an earlier stage is still running —
+			// and that earlier stage may be blocked handing over to the stage that failed
+			{
+				nErrChans := 0
+				for _, prm := range fn.Params {
+					t := prm.Type()
+					if sl, ok := t.Underlying().(*types.Slice); ok {
+						t = sl.Elem()
+						if ch, ok := t.Underlying().(*types.Chan); ok && isErrorType(ch.Elem()) {
+							nErrChans += 2
+						}
+						continue
+					}
+					if ch, ok := t.Underlying().(*types.Chan); ok && isErrorType(ch.Elem()) && ch.Dir() == types.RecvOnly {
+						nErrChans++
+					}
+				}
+				if nErrChans >= 2 {
+					nGo := 0
+					for _, f := range family {
+						allInstrs(f, func(in ssa.Instruction) {
+							if c, ok := in.(*ssa.Call); ok && calleeFullName(c.Common()) == "(*golang.org/x/sync/errgroup.Group).Go" {
+								nGo++
+							}
+							if _, ok := in.(*ssa.Go); ok {
+								nGo++
+							}
+						})
+					}
+					if nGo == 0 {
+						l.bad(fid, "stage errors are awaited concurrently", p.Pos(fn.Pos()), "the stages' error channels are read one after the other in this function (no collector goroutine per channel): while it waits for an earlier stage to finish, the error parked by a later stage is not read, the earlier stages block handing over to the stage that failed, and the call neither returns that error nor returns at all", "collector")
+					}
+				}
 			}
 			// the collectors' joint verdict: a stage closes its error channel whenever it stops — also when it stops
 			// because the operation was cancelled — so a collector can see "closed, no error" before it sees the
@@ -1097,16 +1266,169 @@ func ruleCONC3(w *World) []Ob {
 							bad = "the collector's select at " + p.InstrPos(sel) + " does not wait on the errgroup's derived context: after the first error the other collectors keep waiting for stages whose senders are blocked"
 						}
 					})
+					if bad == "" {
+						bad = collectorDropsError(p, body)
+					}
 					if bad != "" {
 						l.bad(fid, construct, p.InstrPos(c), bad, "collector")
 					} else {
-						l.ok(fid, construct, p.InstrPos(c), fmt.Sprintf("%d blocking select(s), each with a Done arm on the context of errgroup.WithContext", nSel), true, "collector")
+						l.ok(fid, construct, p.InstrPos(c), fmt.Sprintf("%d blocking select(s), each with a Done arm on the context of errgroup.WithContext; a received non-nil error is always returned", nSel), true, "collector")
 					}
 				})
 			}
 		}
 	}
 	return l.list
+}
+
+// collectorDropsError: the collector receives an error from its stage; on every route from that receive to a return
+// that may hand back nil, the received error was found nil (err == nil), the channel was found closed (!ok), or another
+// arm of the select was taken.  A route on which a non-nil error is classified away (filtered by kind, logged, counted)
+// and nil is returned loses the stage's verdict.
+func collectorDropsError(p *Prog, body *ssa.Function) string {
+	nc := newNilCtxCached(p)
+	why := ""
+	allInstrs(body, func(in ssa.Instruction) {
+		sel, ok := in.(*ssa.Select)
+		if !ok || why != "" {
+			return
+		}
+		recvArm := -1
+		for i, st := range sel.States {
+			if ch, isCh := st.Chan.Type().Underlying().(*types.Chan); isCh && st.Dir == types.RecvOnly && isErrorType(ch.Elem()) {
+				recvArm = i
+			}
+		}
+		if recvArm < 0 {
+			return
+		}
+		// the values extracted from the select: index (0), recvOk (1), received values (2+)
+		var idxV, okV, errV ssa.Value
+		for _, r := range *sel.Referrers() {
+			if ex, isEx := r.(*ssa.Extract); isEx {
+				switch {
+				case ex.Index == 0:
+					idxV = ex
+				case ex.Index == 1:
+					okV = ex
+				case isErrorType(ex.Type()):
+					errV = ex
+				}
+			}
+		}
+		if errV == nil {
+			why = "the value received from the stage's error channel is discarded"
+			return
+		}
+		safeEdge := func(from *ssa.BasicBlock, k int) bool {
+			if len(from.Instrs) == 0 || len(from.Succs) != 2 {
+				return false
+			}
+			ifi, ok := from.Instrs[len(from.Instrs)-1].(*ssa.If)
+			if !ok {
+				return false
+			}
+			pol := k == 0
+			if tv, nonNil, ok := nilTest(ifi.Cond, pol); ok && !nonNil && (tv == errV || sameVar(tv, errV)) {
+				return true
+			}
+			cond, p2 := flattenCond(ifi.Cond, pol)
+			if okV != nil && cond == okV && !p2 {
+				return true
+			}
+			if b, isB := cond.(*ssa.BinOp); isB && idxV != nil && b.X == idxV && b.Op == token.EQL {
+				if kk, isK := constInt(b.Y); isK {
+					if (p2 && int(kk) != recvArm) || (!p2 && int(kk) == recvArm) {
+						return true
+					}
+				}
+			}
+			return false
+		}
+		seen := map[*ssa.BasicBlock]bool{}
+		var walk func(b *ssa.BasicBlock)
+		walk = func(b *ssa.BasicBlock) {
+			if seen[b] || why != "" {
+				return
+			}
+			seen[b] = true
+			if len(b.Instrs) > 0 {
+				if r, isR := b.Instrs[len(b.Instrs)-1].(*ssa.Return); isR {
+					for _, v := range rr(r) {
+						if isErrorType(v.Type()) && !nc.nonNil(v, r, 0) {
+							why = "the return at " + p.InstrPos(r) + " can hand back nil on a route where the error received from the stage at " + p.InstrPos(sel) + " is not known to be nil: a stage's error is classified away (by kind, by wrapping, by count) instead of being returned, and the operation reports success"
+						}
+					}
+					return
+				}
+			}
+			for k, s2 := range b.Succs {
+				if !safeEdge(b, k) {
+					walk(s2)
+				}
+			}
+		}
+		walk(sel.Block())
+	})
+	return why
+}
+
+// escapingCancelledCtx: fn derives a context, defers its cancel, and still lets the context (or something built from
+// it) out through a return value: whoever receives it gets a context that is already cancelled.
+func escapingCancelledCtx(p *Prog, fn *ssa.Function) []string {
+	var out []string
+	allInstrs(fn, func(in ssa.Instruction) {
+		d, ok := in.(*ssa.Call)
+		if !ok {
+			return
+		}
+		switch calleeFullName(d.Common()) {
+		case "context.WithCancel", "context.WithTimeout", "context.WithDeadline", "context.WithCancelCause":
+		default:
+			return
+		}
+		var ctxv, cancel ssa.Value
+		for _, r := range *d.Referrers() {
+			if e, ok := r.(*ssa.Extract); ok {
+				if e.Index == 0 {
+					ctxv = e
+				} else if e.Index == 1 {
+					cancel = e
+				}
+			}
+		}
+		if ctxv == nil || cancel == nil {
+			return
+		}
+		deferred := false
+		allInstrs(fn, func(in2 ssa.Instruction) {
+			if df, ok := in2.(*ssa.Defer); ok && sameVar(df.Common().Value, cancel) {
+				deferred = true
+			}
+		})
+		if !deferred {
+			return
+		}
+		allInstrs(fn, func(in2 ssa.Instruction) {
+			r, ok := in2.(*ssa.Return)
+			if !ok {
+				return
+			}
+			for _, v := range rr(r) {
+				// only a value that can hold on to the context carries it out: not an error or a number computed with it
+				if isErrorType(v.Type()) {
+					continue
+				}
+				if _, basic := v.Type().Underlying().(*types.Basic); basic {
+					continue
+				}
+				if dependsOnValue(v, ctxv, 0) {
+					out = append(out, "the context derived at "+p.InstrPos(d)+" is cancelled by the deferred cancel when the function returns, yet the value returned at "+p.InstrPos(r)+" is built from it: its receiver runs on a context that is already cancelled")
+				}
+			}
+		})
+	})
+	return dedup(out)
 }
 
 func describeCtx(o ctxOrigin) string {
